@@ -21,6 +21,11 @@ import (
 
 // VerifyFile runs relic's verifier (integrity + chain) on path and checks that the signature names the key's certificate.
 func (w *World) VerifyFile(ti *TypeInfo, ki *KeyInfo, path, orig string) error {
+	return w.VerifyFileWant(ti, ki, path, orig, 1)
+}
+
+// VerifyFileWant: as VerifyFile, for a file expected to carry `want` signatures (a Debian package holds one per role).
+func (w *World) VerifyFileWant(ti *TypeInfo, ki *KeyInfo, path, orig string, want int) error {
 	vr := pipex.VerifyRequest{Path: path, SigType: ti.SigType, Roots: []*x509.Certificate{w.Root.Cert}}
 	if ti.Pgp {
 		vr.TrustedPgp = loadPgp(ki.PgpPath)
@@ -33,7 +38,7 @@ func (w *World) VerifyFile(ti *TypeInfo, ki *KeyInfo, path, orig string) error {
 	if err != nil {
 		return err
 	}
-	if len(sigs) != 1 {
+	if len(sigs) != want {
 		return fmt.Errorf("%d signatures", len(sigs))
 	}
 	if s := sigs[0]; s.X509Signature != nil && !bytes.Equal(s.X509Signature.Certificate.Raw, ki.Leaf.Cert.Raw) {
